@@ -625,10 +625,8 @@ func (l *LangRef) UnmarshalText(data []byte) error {
 	if len(data) == 0 {
 		return nil
 	}
-	if len(data) > 2 {
-		if data[0] == '"' && data[len(data)-1] == '"' {
-			*l = LangRef(data[1 : len(data)-1])
-		}
+	if len(data) > 2 && data[0] == '"' && data[len(data)-1] == '"' {
+		*l = LangRef(data[1 : len(data)-1])
 	} else {
 		*l = LangRef(data)
 	}
@@ -652,10 +650,8 @@ func (c *Content) UnmarshalText(data []byte) error {
 	if len(data) == 0 {
 		return nil
 	}
-	if len(data) > 2 {
-		if data[0] == '"' && data[len(data)-1] == '"' {
-			*c = Content(data[1 : len(data)-1])
-		}
+	if len(data) > 2 && data[0] == '"' && data[len(data)-1] == '"' {
+		*c = Content(data[1 : len(data)-1])
 	} else {
 		*c = Content(data)
 	}
